@@ -240,6 +240,7 @@ type Emitter struct {
 	noteSet  map[string]bool
 	sink     bool // dry-run: discard obligations
 	quiet    int  // >0 inside quantifier bodies: no naming, no side assumptions
+	oblNames map[string]bool
 }
 
 func newEmitter() *Emitter {
@@ -313,9 +314,15 @@ func (e *Emitter) oblige(o *Obl) {
 	if e.sink {
 		return
 	}
-	if o.Goal.S == "true" && !o.Vac {
-		// trivially discharged, still counted
+	// obligation names are unique within a function (several back edges may check the same invariant)
+	base := o.Name
+	for n := 2; e.oblNames[o.Name]; n++ {
+		o.Name = fmt.Sprintf("%s~%d", base, n)
 	}
+	if e.oblNames == nil {
+		e.oblNames = map[string]bool{}
+	}
+	e.oblNames[o.Name] = true
 	e.obls = append(e.obls, o)
 }
 
